@@ -18,7 +18,7 @@ from harness import core, paramalg as pa, runfamily as rf
 
 LEVEL = "model_checking"
 
-ACTIONS = ["Grow", "Twin", "Ship", "Konst", "Build", "MShipDeliver", "MIntDeliver", "MDeliver", "MCall", "MRetune", "MEq", "MClear", "MPickle", "Unpickle", "MCallCopy", "MClearCopy", "MSolve"]
+ACTIONS = ["Grow", "Twin", "Ship", "Konst", "Build", "MShipDeliver", "MIntDeliver", "MDeliver", "MCall", "MRetune", "MRetuneS", "MEq", "MClear", "MPickle", "Unpickle", "MCallCopy", "MClearCopy", "MSolve"]
 
 
 def neighbours(tree, prev):
@@ -101,7 +101,7 @@ def run(ctx):
     work = []
     for it in items:
         # == is asked about neighbours chosen here and about every other SHAPE of the same flat reading exported by TLC
-        work.append({"tree": it["tree"], "others": neighbours(it["tree"], prev) + list(it["eqs"])})
+        work.append({"tree": it["tree"], "expect": it["expect"], "others": neighbours(it["tree"], prev) + list(it["eqs"])})
         if not it["twin"] and not it["ship"]:
             prev = it["tree"]       # (never the twinned form: a leaf and its twin are not compared)
     nchunk = 1 if len(work) < 1500 else 48
@@ -198,6 +198,39 @@ def run(ctx):
                 else:
                     c_prev = None
     ctx.cov["calls_after_the_keyword_argument_of_a_caching_operand_was_edited_in_place"] = dict(sorted(nkw.items()))
+    # answered calls right after a keyword argument of the STATIC leaves was edited in place to another value, the call before
+    # the edit having been answered in the same form at the same time: per object, on expressions of the shape
+    # TD op (static op static) / (static op static) op TD (a static leaf under a static sub-composite of a time-dependent
+    # composite) and on all others
+    def td_over_static_composite(t):
+        if t["k"] != "N":
+            return False
+        for a, b in ((t["l"], t["r"]), (t["r"], t["l"])):
+            if (pa.kinds(a) & {"PT", "PTb"} and b["k"] == "N" and not pa.kinds(b) & {"PT", "PTb"}
+                    and pa.kinds(b) & pa.STATIC_LEAVES):
+                return True
+        return td_over_static_composite(t["l"]) or td_over_static_composite(t["r"])
+
+    nst = {}
+    for tr in traces:
+        shape = "td_over_static_composite" if td_over_static_composite(tr["tree"]) else "other"
+        s_prev, s_now = {}, {}
+        for e in tr["ev"]:
+            if e["ev"] == "unpickle":
+                s_prev.pop("copy", None), s_now.pop("copy", None)
+            if e["ev"] == "retune_s" and e["n"]:
+                s_now[e["who"]] = e["s"]
+            elif e["ev"] == "call":
+                w = e["who"]
+                if e["obs"]["arr"]["k"] == "v" and w in s_now and s_prev.get(w, (None,))[1:] == (e["f"], e["t"]) and s_prev[w][0] != s_now[w]:
+                    k = f"{w}: {shape}"
+                    nst[k] = nst.get(k, 0) + 1
+                s_prev[w] = (s_now.get(w, pa.Q), e["f"], e["t"]) if e["obs"]["arr"]["k"] == "v" else (None, None, None)
+    ctx.cov["calls_after_the_keyword_argument_of_a_static_leaf_was_edited_in_place"] = dict(sorted(nst.items()))
+    need_s = 20 if quick else 1000
+    for k in ("orig: td_over_static_composite", "copy: td_over_static_composite", "orig: other", "copy: other"):
+        if nst.get(k, 0) < need_s:
+            raise core.MachineryFailure(f"C16: vacuous: only {nst.get(k, 0)} answered calls after an in-place edit of a static leaf's keyword argument '{k}'")
     need = 15 if quick else 1000
     for k in ("orig: t=-1 then t=-2", "orig: t=-2 then t=-1", "copy: t=-2 then t=-1"):
         if npair.get(k, 0) < need:
@@ -256,7 +289,8 @@ def run(ctx):
     ctx.cov["rule"] = ("one case = one expression tree enumerated by TLC, built with the real classes and exercised (==, 12 array deliveries into re-used / viewed / temporary memory, "
                        f"{4 * len(pa.ORIG_CALLS)} calls over 4 argument forms x scalar/array arguments x times (zero, positive, negative, "
                        "fractional, repeated and in both orders), "
-                       f"{len(pa.RETUNES)} in-place edits of a keyword argument of the time-dependent leaves each followed by 4 calls, _clear_cache, two pickle round trips with the copy "
+                       f"{len(pa.RETUNES)} in-place edits of a keyword argument of the time-dependent leaves each followed by 4 calls, "
+                       f"{len(pa.RETUNES_S)} (+ {len(pa.COPY_RETUNES_S)} on the unpickled copy) in-place edits of the keyword argument of the static leaves each followed by 4 calls, _clear_cache, two pickle round trips with the copy "
                        "exercised) or handed to the real solver; non-trivial = at least one operator; distinct = distinct trees "
                        "(+ distinct trees handed to the solver)")
     ctx.assume("values are compared on the exact evaluation domain (dyadics in units of 1/64, |v| <= 512); where the model's value "
